@@ -3,10 +3,16 @@ from html import escape
 from protocol_code_generator.generate.code_block import CodeBlock
 
 
+def escape_docstring_text(text):
+    # The text ends up inside a triple-quoted string literal of the generated code.
+    return text.replace('\\', '\\\\').replace('"""', '\\"\\"\\"')
+
+
 def generate_docstring(protocol_comment):
     lines = []
 
     if protocol_comment:
+        protocol_comment = escape_docstring_text(protocol_comment)
         lines.extend(map(str.strip, escape(protocol_comment, quote=False).split('\n')))
 
     result = CodeBlock()
